@@ -146,6 +146,11 @@ def snapStep (s : Snaps) : Op → Snaps
   | .delete id => s.filter (fun p => p.1 != id)
   | _ => s
 
+/-- The snapshots the transaction PREFIX of an INTERRUPTED request leaves (crash point / storage fault): deleteTask
+removes the snapshot in its FIRST transaction (snapshots.Delete, before tasks.Get — its error is ignored), and no other
+request writes the snapshot bucket. `first` = the first transaction of the request committed. -/
+def snapPrefix (s : Snaps) (op : Op) (first : Bool) : Snaps := if first then snapStep s op else s
+
 /-! ### Recorded deviations (findings/C14.txt): decidable clauses on the input, with the deviated output -/
 
 /-- The task (ID, definition) whose start an accepted create/update would attempt. -/
